@@ -1,10 +1,81 @@
 import Driver.Proto
 import SpsdkVerif.Generated.PyFuns
 import SpsdkVerif.Model.Misc
+import SpsdkVerif.Generated.PyFuns2
+import SpsdkVerif.Generated.EnumTables
+import SpsdkVerif.Model.Misc2
 open SpsdkVerif Driver
 open SpsdkVerif.Misc
 
 def asciiOf (b : List UInt8) : List Char := b.map (fun x => Char.ofNat x.toNat)
+
+/-- phase 2 helpers -/
+def bytesOfChars (l : List Char) : List UInt8 := l.map (fun c => UInt8.ofNat c.toNat)
+def hexOrDash (b : List UInt8) : String := if b.isEmpty then "-" else toHex b
+def parseOptInt (s : String) : Option (Option Int) := if s == "none" then some none else (parseInt s).map some
+
+def enumByName (n : String) : Option (List EnumRow) :=
+  if n == "sb2cmd" then some Generated.EnumTables.enumSb2CmdTag
+  else if n == "ahabmem" then some Generated.EnumTables.enumAhabTargetMemory else none
+
+def rowStr (m : EnumRow) : String :=
+  s!"{m.1}:{hexOrDash (bytesOfChars m.2.1)}:" ++ (match m.2.2 with | some d => hexOrDash (bytesOfChars d) | none => "none")
+
+def step2 : List String → String
+  | ["gen_bytes_cnt", f, v, a, c] => match parseNat f, parseInt v, parseBool a, parseOptInt c with
+    | some f, some v, some a, some c => resLine toString (Generated.PyFuns2.getBytesCntOfInt f v a c) | _, _, _, _ => "bad-op"
+  | ["gen_bcd_check", n] => match parseInt n with
+    | some n => resLine boolStr (Generated.PyFuns2.bcdCheckNumber n) | _ => "bad-op"
+  | ["gen_swap32_guard", x] => match parseInt x with
+    | some x => resLine boolStr (Generated.PyFuns2.swap32Guard x) | _ => "bad-op"
+  | ["gen_revlongs_guard", n] => match parseInt n with
+    | some n => resLine boolStr (Generated.PyFuns2.revLongsGuard n) | _ => "bad-op"
+  | ["gen_extend_np", n, l, p] => match parseInt n, parseInt l, parseInt p with
+    | some n, some l, some p => resLine toString (Generated.PyFuns2.extendBlockNumPadding n l p) | _, _, _ => "bad-op"
+  | ["gen_align_np", n, a] => match parseInt n, parseInt a with
+    | some n, some a => resLine toString (Generated.PyFuns2.alignBlockNumPadding n a) | _, _ => "bad-op"
+  | ["load_hex", kind, payload, n] =>
+    let src : Option HexSrc :=
+      if kind == "none" then some .none
+      else if kind == "bytes" then (parseHex payload).map .bytes
+      else if kind == "int" then (parseInt payload).map .int
+      else if kind == "str" then (parseHex payload).map (fun b => .str (asciiOf b))
+      else none
+    (match src, parseInt n with
+     | some src, some n => resLine (fun o => match o with | some b => hexOrDash b | none => "random") (loadHexString src n)
+     | _, _ => "bad-op")
+  | ["value_to_bool", kind, payload] =>
+    let src : Option BoolSrc :=
+      if kind == "none" then some .none
+      else if kind == "bool" then (parseBool payload).map .bool
+      else if kind == "int" then (parseInt payload).map .int
+      else if kind == "str" then (parseHex payload).map (fun b => .str (asciiOf b))
+      else none
+    (match src with | some src => "ok:" ++ boolStr (valueToBool src) | none => "bad-op")
+  | ["pattern_accept", h] => match parseHex h with
+    | some b => "ok:" ++ boolStr (patternAccept (asciiOf b)) | none => "bad-op"
+  | ["pattern_prop", h] => match parseHex h with
+    | some b => "ok:" ++ hexOrDash (bytesOfChars (patternProp (asciiOf b))) | none => "bad-op"
+  | ["split_data", h, n] => match parseHex h, parseInt n with
+    | some b, some n => resLine (fun cs => ",".intercalate (cs.map hexOrDash)) (splitData b n) | _, _ => "bad-op"
+  | ["enum", name, "from_tag", t] => match enumByName name, parseInt t with
+    | some E, some t => resLine rowStr (fromTag E t) | _, _ => "bad-op"
+  | ["enum", name, "from_label", h] => match enumByName name, parseHex h with
+    | some E, some b => resLine rowStr (fromLabel E (asciiOf b)) | _, _ => "bad-op"
+  | ["enum", name, "get_tag", h] => match enumByName name, parseHex h with
+    | some E, some b => resLine toString (getTag E (asciiOf b)) | _, _ => "bad-op"
+  | ["enum", name, "get_label", t] => match enumByName name, parseInt t with
+    | some E, some t => resLine (fun l => hexOrDash (bytesOfChars l)) (getLabel E t) | _, _ => "bad-op"
+  | ["enum", name, "get_description", t, d] => match enumByName name, parseInt t with
+    | some E, some t =>
+      let dflt : Option (List Char) := if d == "none" then none else (parseHex d).map asciiOf
+      resLine (fun o => match o with | some l => hexOrDash (bytesOfChars l) | none => "none") (getDescription E t dflt)
+    | _, _ => "bad-op"
+  | ["enum", name, "contains_tag", t] => match enumByName name, parseInt t with
+    | some E, some t => "ok:" ++ boolStr (containsTag E t) | _, _ => "bad-op"
+  | ["enum", name, "contains_label", h] => match enumByName name, parseHex h with
+    | some E, some b => "ok:" ++ boolStr (containsLabel E (asciiOf b)) | _, _ => "bad-op"
+  | _ => "bad-op"
 
 def step : List String → String
   | ["align", n, a] => match parseInt n, parseInt a with
@@ -44,6 +115,6 @@ def step : List String → String
     | _, _ => "bad-op"
   | ["bcd_from", h] => match parseHex h with | some b => resLine toString (bcdFromDigits (asciiOf b)) | none => "bad-op"
   | ["bcd_to", n] => match parseNat n with | some n => "ok:" ++ String.ofList (bcdToDigits n) | none => "bad-op"
-  | _ => "bad-op"
+  | l => step2 l
 
 def main : IO Unit := Driver.loop step
